@@ -208,6 +208,9 @@ def run : List Op → List DS → List DS × List Out
 /-- the two representations hold the same rows in the same order -/
 def DS.Aligned (d : DS) : Prop := d.materialized = true → d.tf = d.df.map enc
 
+instance (d : DS) : Decidable d.Aligned := by
+  unfold DS.Aligned; exact inferInstance
+
 /-- every dataset derived so far is aligned -/
 def PoolWF (pool : List DS) : Prop := ∀ d ∈ pool, d.Aligned
 
